@@ -504,8 +504,9 @@ def rule_rowlocal(ctx):
 def rules(tier):
     from . import carry, c04
     from . import precision
-    from . import intnarrow
-    return [intnarrow.make_rule("R-C18-narrow", lambda f: f["d"]["krate"] == "linfa_reduction" and "pca" in fn_file(f), "linfa-reduction pca"),
+    from . import intnarrow, sizeroute
+    return [sizeroute.make_rule("R-C18-sizeroute", lambda f: f["d"]["krate"] == "linfa_reduction", "linfa-reduction"),
+            intnarrow.make_rule("R-C18-narrow", lambda f: f["d"]["krate"] == "linfa_reduction" and "pca" in fn_file(f), "linfa-reduction pca"),
             rule_ratiosquares, rule_whitenscale, rule_centreonce, rule_guard, rule_n, rule_project, rule_memorder, rule_overwrite, rule_stale, rule_ratio_paths, c01.rule_width,
             carry.make_clone_rule("R-C18-clone", {"linfa_reduction"}, 4), carry.make_setter_rule("R-C18-override", {"linfa_reduction"}, 2), rule_rowlocal,
             precision.make_rule("R-C18-precision", lambda f: f["d"]["krate"] == "linfa_reduction" and "pca" in fn_file(f), 9, "linfa-reduction pca"),
